@@ -50,3 +50,52 @@ package api
 //@   ensures result.0 ==> result.1 != nil
 
 //@ iface ShipConnectionDataReaderInterface.HandleShipPayloadMessage(msg)
+
+// ---- a SHIP connection as seen by the hub ----
+//@ ghost field Conn.$ski string
+//@ ghost field Conn.$dataHandler iface
+//@ ghost field Conn.$closeCalls int
+//@ ghost field Conn.$lastSafe bool
+//@ ghost field Conn.$lastCode int
+//@ ghost field Conn.$lastReason string
+//@ ghost field Conn.$approveCalls int
+//@ ghost field Conn.$abortCalls int
+//@ ghost field Conn.$hsState int
+//@ ghost field Conn.$hsErr iface
+//@ iface ShipConnectionInterface.RemoteSKI() pure
+//@   ensures result == this.$ski
+//@ iface ShipConnectionInterface.DataHandler() pure
+//@   ensures result == this.$dataHandler
+//@ iface ShipConnectionInterface.ShipHandshakeState() pure
+//@   ensures result.0 == this.$hsState && result.1 == this.$hsErr
+//@ iface ShipConnectionInterface.CloseConnection(safe, code, reason)
+//@   ensures this.$closeCalls == old(this.$closeCalls) + 1 && this.$lastSafe == safe && this.$lastCode == code && this.$lastReason == reason
+//@   spawns this.$closeCalls == old(this.$closeCalls) + 1 && this.$lastSafe == safe && this.$lastCode == code && this.$lastReason == reason
+//@   modifies this.$closeCalls, this.$lastSafe, this.$lastCode, this.$lastReason
+//@ iface ShipConnectionInterface.ApprovePendingHandshake()
+//@   requires [C01] G0-approved: $Trusted[norm(this.$ski)]
+//@   ensures this.$approveCalls == old(this.$approveCalls) + 1
+//@   modifies this.$approveCalls
+//@ iface ShipConnectionInterface.AbortPendingHandshake()
+//@   ensures this.$abortCalls == old(this.$abortCalls) + 1
+//@   modifies this.$abortCalls
+
+// ---- the application (hub reader) and the mDNS manager as seen by the hub: no effect on hub state ----
+//@ iface HubReaderInterface.RemoteSKIConnected(ski)
+//@ iface HubReaderInterface.RemoteSKIDisconnected(ski)
+//@ iface HubReaderInterface.SetupRemoteDevice(ski, writeI)
+//@ iface HubReaderInterface.VisibleRemoteServicesUpdated(entries)
+//@ iface HubReaderInterface.ServiceShipIDUpdate(ski, shipID)
+//@ iface HubReaderInterface.ServicePairingDetailUpdate(ski, detail)
+//@ iface HubReaderInterface.AllowWaitingForTrust(ski) pure
+//@ iface MdnsInterface.Start(cb)
+//@ iface MdnsInterface.Shutdown()
+//@ iface MdnsInterface.AnnounceMdnsEntry()
+//@ iface MdnsInterface.UnannounceMdnsEntry()
+//@ iface MdnsInterface.SetAutoAccept(v)
+//@ iface MdnsInterface.RequestMdnsEntries()
+
+//@ immutable ServiceDetails.ski
+//@ func NewServiceDetails(ski)
+//@   ensures result != nil && result.ski == norm(ski) && !result.trusted && result.shipID == "" && result.ipv4 == "" && !result.autoAccept
+//@   ensures result.connectionStateDetail != nil && result.connectionStateDetail.state == ConnectionStateNone && result.connectionStateDetail.error == nil
